@@ -297,6 +297,41 @@ func runC09(env *core.Env) {
 			}
 		}
 	}
+	// a writer that died one byte short of finishing a prune: the last tombstone lacks only its newline. It is a whole
+	// event (readers apply it); no later command may bring the pruned item back.
+	{
+		fx := FixFrom(env, w0, rich.Store, rich.N)
+		victim := rich.ByState["canceled"]
+		fx.Must(core.R("", "--json", "prune", "--yes"))
+		st := fx.Store()
+		log := st.Log()
+		if len(log) > 0 && log[len(log)-1] == '\n' && strings.Contains(string(log[strings.LastIndex(string(log[:len(log)-1]), "\n")+1:]), "tombstone") {
+			cut := st.WithLog(log[:len(log)-1])
+			lastID := prunedIDs(log)
+			_ = lastID
+			for _, r := range []core.Req{core.R("", "--json", "new", "task").In(`{"title":"after the cut"}`), core.R("", "--json", "set", rich.ByState["todo"]).In(`{"title":"renamed"}`), core.R("", "--json", "claim", "--agent", "z")} {
+				cut.Materialize(w0.Proj)
+				var stillGone []string
+				for _, id := range prunedIDs(log) {
+					if w0.Run(core.R(w0.Proj, "--json", "show", id)).Exit != 0 {
+						stillGone = append(stillGone, id)
+					}
+				}
+				q := r
+				q.Cwd = w0.Proj
+				q.RandBase = 9000
+				res := w0.Run(q)
+				followUps++
+				for _, id := range stillGone {
+					if sh := w0.Run(core.R(w0.Proj, "--json", "show", id)); sh.Exit == 0 {
+						report(env, "C09 kind=pruned-id-back-after-append-to-unterminated-log op="+opClass(r), fmt.Sprintf("log ends in a tombstone without newline; after `%s` (exit %d) `show %s` works again", r.Shell(), res.Exit, id),
+							mkTrace(cut, "pruned item resurrected", []core.Req{r, core.R("", "--json", "show", id)}, Assert{Kind: "exit_zero", Step: 2}))
+					}
+				}
+			}
+			_ = victim
+		}
+	}
 	// after compact the pruned ids must stay unusable
 	{
 		fx := FixFrom(env, w0, rich.Store, rich.N)
